@@ -23,7 +23,7 @@ impl Monitor for C01 {
 
     fn plan(&self, tier: Tier) -> Plan {
         let mut p = Plan::new(
-            tier.pick(200_000, 12_000_000),
+            tier.pick(1_000_000, 40_000_000),
             "cases = (expectation list, output bytes) from 6 families (uniform over a small overlapping alphabet, member-then-one-line-edit, long tails, degenerate, disjoint match sets, the output's own lines); a case is non-trivial if scrut reported a pass or it is a one-edit near miss of a member; distinct = hash of (quantifier vector, match matrix, final-newline flag)",
         );
         p.floor_nontrivial = tier.pick(2_000, 20_000);
@@ -35,7 +35,11 @@ impl Monitor for C01 {
         p
     }
 
-    fn gen(&self, env: &Env, _k: u64, rng: &mut Rng) -> DiffCase {
+    fn gen(&self, env: &Env, k: u64, rng: &mut Rng) -> DiffCase {
+        // thorough: the first SWEEP_SIZE case numbers are the complete sweep of small shapes
+        if env.tier == Tier::Thorough && k < SWEEP_SIZE {
+            return sweep_case(k);
+        }
         gen_case(rng, false, env.tier == Tier::Thorough)
     }
 
